@@ -61,10 +61,15 @@ o P2 240205#B5 under h4 key::three
 - 240402#T2 middle, goes away
 - 240403#T3 last one +rocket
 """,
+    # sorts last; can be broken for a while
+    "zz.zo": """# ZZ page
+
+- 240501#Z1 note on the last page
+""",
 }
 
 EVENTS = ["edit_body_a", "kind_a", "add_note_a", "del_note_a", "move_note", "add_page_c",
-          "del_page_b", "rename_b_d", "restore_b", "title_tags_a", "header_b", "drop_last_tag", "del_note_t",
+          "del_page_b", "rename_b_d", "restore_b", "title_tags_a", "header_b", "drop_last_tag", "del_note_t", "break_z", "fix_z",
           "R", "Rp", "D"]
 
 QUERIES = [
@@ -161,6 +166,21 @@ def apply_edit(zd: Path, ev: str, guards: dict) -> bool:
         else:
             b.parent.mkdir(parents=True, exist_ok=True)
             b.write_text(guards.get("b_text") or BASE["sub/b.zo"])
+        return True
+    if ev == "break_z":
+        zp = zd / "zz.zo"
+        if guards.get("z_broken") or guards.get("z_was_broken"):
+            return False
+        guards["z_broken"] = 1
+        guards["z_was_broken"] = 1
+        zp.write_text(zp.read_text() + "-- this line is a syntax error\n- 240502#Z2 added while broken\n")
+        return True
+    if ev == "fix_z":
+        zp = zd / "zz.zo"
+        if not guards.get("z_broken"):
+            return False
+        guards["z_broken"] = 0
+        zp.write_text(zp.read_text().replace("-- this line is a syntax error\n", ""))
         return True
     if ev == "del_note_t":
         tp = zd / "t.zo"
@@ -284,7 +304,13 @@ def step(st: B.St, ev: str) -> B.StepResult:
                 return res
             r = Z.db_reindex(zd, day, [str(zd / "a.zo")] if ev == "Rp" else [])
             if not Z.cli_ok(r):
-                problem = (f"reindex-failed:{ev}", {"status": r.status, "exit": r.value, "stderr": r.err[-1200:]})
+                if guards.get("z_broken") and ev == "R" and "has errors" in r.err:
+                    # a page is broken right now: the refusal is the specified behaviour;
+                    # whatever was indexed before the refusal stays, and is judged at the
+                    # next successful plain reindex
+                    pass
+                else:
+                    problem = (f"reindex-failed:{ev}", {"status": r.status, "exit": r.value, "stderr": r.err[-1200:]})
             elif ev == "R":
                 H.freeze(day)
                 problem = judge_after_plain_reindex(zd, day)
@@ -363,7 +389,7 @@ def run(ctx: F.Ctx):
         "rule": (
             "BFS from 4 initial states (indexed two-page directory; same with a ZID-less note "
             "pending; same after an earlier stamped edit; same after a page was deleted and the "
-            "index followed) over 16 events: edit a body, change a "
+            "index followed) over 18 events: edit a body, change a "
             "todo's kind, add a ZID-less note, delete a note, move a note between pages, add a page, "
             "delete a page, rename a page, bring the vanished page back byte-identical, edit title-line tags, edit a section header, drop the "
             "last holder of a tag, plain reindex, reindex of one explicit path, advance the day. "
